@@ -1,2 +1,236 @@
--- stub: replaced by the vlog engine driver
-def main : IO Unit := pure ()
+/-
+Line-protocol driver for the value-log engine (C08, C11).
+Reply format: `<model>\t<spec>`; spec patterns: `*` anything, `a|b` alternatives.
+
+The spec column is an abstract versioned map fed only by the acknowledged client writes
+(set/del/setv/delv); gc, reopen, crash never touch it.
+-/
+import Driver.Lib
+import NoKVModel.Vlog.Model
+
+open NoKV NoKV.Vlog Driver
+
+/-- specification state: acknowledged writes, newest first: (key, version, value or tombstone) -/
+abbrev Spec := List (Bytes × Nat × Option Bytes)
+
+/-- the write visible at (k, v): greatest version ≤ v, most recent write among equals -/
+def specLookup (sp : Spec) (k : Bytes) (v : Nat) : Option (Nat × Option Bytes) :=
+  sp.foldr (fun e best =>
+    if e.1 == k && e.2.1 ≤ v then
+      match best with
+      | some (w, x) => if w > e.2.1 then some (w, x) else some (e.2.1, e.2.2)
+      | none => some (e.2.1, e.2.2)
+    else best) none
+
+structure DSt where
+  c : VCfg := VCfg.asis
+  s : St := St.init ⟨32, 400, 1⟩
+  sp : Spec := []
+  pending : Option (Nat × Nat × List Rec) := none
+
+def hx (b : Bytes) : String := if b.isEmpty then "-" else b.toHex
+
+def resStr (plain : Bool) : Res → String
+  | .notfound => "notfound"
+  | .tomb => if plain then "notfound" else "tomb"
+  | .val v => "v:" ++ hx v
+  | .err => "err"
+
+def specStr (plain : Bool) : Option (Nat × Option Bytes) → String
+  | none => "notfound"
+  | some (_, none) => if plain then "notfound" else "tomb"
+  | some (_, some v) => "v:" ++ hx v
+
+def insertStr (x : String) : List String → List String
+  | [] => [x]
+  | y :: ys => if x ≤ y then x :: y :: ys else y :: insertStr x ys
+
+def sortStr (l : List String) : List String := l.foldr insertStr []
+
+def joinOr (sep : String) (l : List String) : String := if l.isEmpty then "-" else sep.intercalate l
+
+def dedupKeys : List (Bytes × Nat) → List (Bytes × Nat)
+  | [] => []
+  | x :: xs => if xs.contains x then dedupKeys xs else x :: dedupKeys xs
+
+def pad20 (n : Nat) : String :=
+  let s := toString n
+  "".pushn '0' (20 - s.length) ++ s
+
+/-- every non-deleted, readable, non-empty (key, version) the iterator yields -/
+def scanModel (s : St) : String :=
+  let keys := dedupKeys (s.lsm.map fun e => (e.key, e.ver))
+  let rows := keys.filterMap fun (k, w) =>
+    match exact s.lsm k w with
+    | none => none
+    | some e =>
+      match resolve s.files e with
+      | .val v => if v.isEmpty then none else some s!"{hx k}@{pad20 w}={hx v}"
+      | _ => none
+  joinOr "," (sortStr rows)
+
+def scanSpec (sp : Spec) : String :=
+  let keys := dedupKeys (sp.map fun e => (e.1, e.2.1))
+  let rows := keys.filterMap fun (k, w) =>
+    match sp.find? (fun e => e.1 == k && e.2.1 == w) with
+    | some (_, _, some v) => if v.isEmpty then none else some s!"{hx k}@{pad20 w}={hx v}"
+    | _ => none
+  joinOr "," (sortStr rows)
+
+def insertNat (x : Nat) : List Nat → List Nat
+  | [] => [x]
+  | y :: ys => if x ≤ y then x :: y :: ys else y :: insertNat x ys
+
+def sortNat (l : List Nat) : List Nat := l.foldr insertNat []
+
+def filesStr (s : St) : String :=
+  let bs := List.range (max s.P.buckets 1)
+  ";".intercalate (bs.map fun b =>
+    let fids := sortNat ((s.files.filter (·.bucket == b)).map (·.fid))
+    s!"{b}:" ++ joinOr "," (fids.map toString))
+
+def recsStr (s : St) (b f : Nat) : String :=
+  match findFile s.files b f with
+  | none => "nofile"
+  | some fl => joinOr "," ((scan fl.recs headerSize).map fun (o, r) =>
+      s!"{hx r.key}@{r.ver}:{r.val.length}:{o}:{recLen r}")
+
+def manStr (s : St) (b : Nat) : String :=
+  let fids := sortNat (((s.man.filter (·.1 == b)).map (·.2.1)).eraseDups)
+  joinOr "," (fids.map fun f => s!"{f}:" ++ (match manGet s.man b f with | some true => "1" | _ => "0"))
+
+def ptrStr (s : St) (k : Bytes) (v : Nat) : String :=
+  match lookup s.lsm k v with
+  | none => "none"
+  | some e =>
+    match e.v with
+    | .inl _ del => if del then "tomb" else "inl"
+    | .ptr p => s!"ptr:{p.bucket}:{p.fid}:{p.off}:{p.len}"
+
+def gcOutStr : GcOut → String
+  | .ok => "ok" | .emptykey => "emptykey" | .badfid => "badfid"
+
+def parseCfg (toks : List String) (c : VCfg) : Option VCfg := do
+  let op (k : String) (d : CmpOp) : Option CmpOp :=
+    match kv? toks k with
+    | none => some d
+    | some v => CmpOp.ofString? v
+  let bl (k : String) (d : Bool) : Option Bool :=
+    match kv? toks k with
+    | none => some d
+    | some v => boolOfString? v
+  let t ← op "vlog.thresholdOp" c.thresholdOp
+  let r ← op "vlog.rotateOp" c.rotateOp
+  let f ← op "vlog.gcFidOp" c.gcFidOp
+  let o ← op "vlog.gcOffOp" c.gcOffOp
+  let b ← bl "vlog.gcChecksBucket" c.gcChecksBucket
+  let pc ← match kv? toks "vlog.postCheck" with
+    | none => some c.postCheckLive
+    | some "released" => some false
+    | some "live" => some true
+    | some _ => none
+  pure { thresholdOp := t, rotateOp := r, gcFidOp := f, gcOffOp := o, gcChecksBucket := b, postCheckLive := pc }
+
+/-- crash image check: reopen, GC every sealed file of every bucket (two rounds), compare dumps -/
+def gcAll (c : VCfg) (s : St) : St :=
+  let bs := List.range (max s.P.buckets 1)
+  bs.foldl (fun s b =>
+    let fids := sortNat ((s.files.filter (·.bucket == b)).map (·.fid))
+    fids.foldl (fun s f => (gc c s b f).1) s) s
+
+def imageStr (c : VCfg) (s : St) : String :=
+  let s0 := reopen s
+  let s2 := gcAll c (gcAll c s0)
+  if scanModel s0 == scanModel s2 then "same" else "diff"
+
+def both (a : String) : String := a ++ "\t" ++ a
+
+def step (d : DSt) (toks : List String) : DSt × String :=
+  let bad := (d, "badop\t*")
+  match toks with
+  | "cfg" :: rest =>
+    match parseCfg rest VCfg.asis with
+    | some c => ({ d with c := c }, "ok")
+    | none => (d, "badcfg")
+  | ["open", t, m, b] =>
+    match natOf? t, natOf? m, natOf? b with
+    | some t, some m, some b => ({ d with s := St.init ⟨t, m, b⟩, sp := [], pending := none }, both "ok")
+    | _, _, _ => bad
+  | ["set", k, v, h] =>
+    match bytesOf? k, bytesOf? v, natOf? h with
+    | some k, some v, some h =>
+      ({ d with s := put d.c d.s k maxU64 v false h, sp := (k, maxU64, some v) :: d.sp }, both "ok")
+    | _, _, _ => bad
+  | ["del", k, h] =>
+    match bytesOf? k, natOf? h with
+    | some k, some h =>
+      ({ d with s := put d.c d.s k maxU64 [] true h, sp := (k, maxU64, none) :: d.sp }, both "ok")
+    | _, _ => bad
+  | ["setv", k, w, v, h] =>
+    match bytesOf? k, natOf? w, bytesOf? v, natOf? h with
+    | some k, some w, some v, some h =>
+      ({ d with s := put d.c d.s k w v false h, sp := (k, w, some v) :: d.sp }, both "ok")
+    | _, _, _, _ => bad
+  | ["delv", k, w, h] =>
+    match bytesOf? k, natOf? w, natOf? h with
+    | some k, some w, some h =>
+      ({ d with s := put d.c d.s k w [] true h, sp := (k, w, none) :: d.sp }, both "ok")
+    | _, _, _ => bad
+  | ["get", k] =>
+    match bytesOf? k with
+    | some k => (d, resStr true (readKV d.s k maxU64) ++ "\t" ++ specStr true (specLookup d.sp k maxU64))
+    | none => bad
+  | ["getv", k, w] =>
+    match bytesOf? k, natOf? w with
+    | some k, some w => (d, resStr false (readKV d.s k w) ++ "\t" ++ specStr false (specLookup d.sp k w))
+    | _, _ => bad
+  | ["scan"] => (d, scanModel d.s ++ "\t" ++ scanSpec d.sp)
+  | ["gc", b, f] =>
+    match natOf? b, natOf? f with
+    | some b, some f =>
+      let (s', o) := gc d.c d.s b f
+      ({ d with s := s' }, gcOutStr o ++ "\t*")
+    | _, _ => bad
+  -- small-step GC for the concurrent window: liveness tests first …
+  | ["gc.test", b, f] =>
+    match natOf? b, natOf? f with
+    | some b, some f =>
+      if (findFile d.s.files b f).isNone || !(decide (f < activeFid d.s.files b)) then (d, "badfid\t*")
+      else
+        let wb := gcLive d.c d.s b f
+        ({ d with pending := some (b, f, wb) }, s!"live={wb.length}\t*")
+    | _, _ => bad
+  -- … client calls may run here … then the re-insert, the post-check and the removal
+  | ["gc.finish"] =>
+    match d.pending with
+    | none => (d, "nopending\t*")
+    | some (b, f, wb) =>
+      let s1 := reinsert d.c d.s b wb
+      if wb != [] && !d.c.postCheckLive then ({ d with s := s1, pending := none }, "emptykey\t*")
+      else ({ d with s := dropFile s1 b f, pending := none }, "ok\t*")
+  | ["reopen"] => ({ d with s := reopen d.s }, both "ok")
+  | ["orphan", k, w, v, h] =>
+    match bytesOf? k, natOf? w, bytesOf? v, natOf? h with
+    | some k, some w, some v, some h => ({ d with s := orphan d.c d.s k w v h }, both "ok")
+    | _, _, _, _ => bad
+  | ["crash", k, w, v, h] =>
+    match bytesOf? k, natOf? w, bytesOf? v, natOf? h with
+    | some k, some w, some v, some h => ({ d with s := reopen (orphan d.c d.s k w v h) }, both "ok")
+    | _, _, _, _ => bad
+  | ["image"] => (d, imageStr d.c d.s ++ "\tsame")
+  | ["files"] => (d, filesStr d.s ++ "\t*")
+  | ["recs", b, f] =>
+    match natOf? b, natOf? f with
+    | some b, some f => (d, recsStr d.s b f ++ "\t*")
+    | _, _ => bad
+  | ["man", b] =>
+    match natOf? b with
+    | some b => (d, manStr d.s b ++ "\t*")
+    | none => bad
+  | ["ptr", k, w] =>
+    match bytesOf? k, natOf? w with
+    | some k, some w => (d, ptrStr d.s k w ++ "\t*")
+    | _, _ => bad
+  | _ => bad
+
+def main : IO Unit := loop ({} : DSt) step
